@@ -3,6 +3,7 @@
 
   FutureFSM       labtech.runners.process.Future
   SmallModels     labtech.utils.LoggerFileProxy, labtech.utils.OrderedSet, labtech.runners.process.ProcessMonitor
+  TaskDef         the class decorator labtech.task: what it refuses, and the options / behaviour of the type it returns
   CycleCheck      TaskState.check_cyclic_dependences: the code's DFS against reachability on every small dependency graph
   StorageSeq      the Storage interface as a sequential object: LocalStorage and FsspecStorage (local filesystem)
   LabRunTrace     implementation-level trace validation: is every recorded execution (hook events + the rig's environment
@@ -92,6 +93,34 @@ def cycle_check(scratch):
     return ok, (f'CycleCheck: {states} graphs model-checked (DFS verdict = reachability), {len(obs)} calls of the real method '
                 f'({cyc} report a cycle), {len(disagree)} disagree; {len(bad)} corrupted verdicts, {len(bad) - len(missed)} rejected'
                 + (f'; first: {json.dumps(first)[:300]}' if first else ''))
+
+
+def task_def(scratch):
+    """TaskDef: every class definition of the model through the real decorator."""
+    r = tlc.run_tlc('TaskDef', 'TaskDef_gen.cfg', scratch=scratch, workers=4, heap='2g', tag='tg', timeout=900)
+    if r.error or r.violated:
+        return False, f'TaskDef: model failed: {r.error or r.violated}'
+    cases = [json.loads(p) for p in r.prints]
+    obs = harness.run_jobs([{'id': f'td{i}', 'cases': cases[i::4]} for i in range(4)], scratch, module='lv.rigs.taskdef', procs=4)
+    bad = []
+    for o in obs[:200]:
+        g = dict(o['got'])
+        g['err'] = 'AttributeError' if g['err'] != 'AttributeError' else ''
+        bad.append(dict(o, id=o['id'] + '~corrupt', got=g))
+    f = scratch / 'obs_taskdef.ndjson'
+    tlc.dump_ndjson(f, [{k: o[k] for k in ('id', 'case', 'got')} for o in obs + bad])
+    j = tlc.run_tlc('TaskDef', 'TaskDef_judge.cfg', scratch=scratch, workers=1, heap='2g', env={'LV_OBS': str(f)}, tag='tj', timeout=900)
+    if j.error or j.violated:
+        return False, f'TaskDef: judge failed: {j.error or j.violated}'
+    verdicts = {v['id']: v['ok'] for v in (json.loads(p) for p in j.prints)}
+    disagree = [o for o in obs if not verdicts.get(o['id'], False)]
+    missed = [c['id'] for c in bad if verdicts.get(c['id'], True)]
+    acc = sum(1 for o in obs if o['got']['err'] == '')
+    first = disagree[0] if disagree else None
+    ok = not disagree and not missed and len(obs) == len(cases) and 0 < acc < len(obs)
+    return ok, (f'TaskDef: {r.distinct} class definitions, {len(obs)} passed through the real decorator ({acc} accepted), '
+                f'{len(disagree)} disagree; {len(bad)} corrupted observations, {len(bad) - len(missed)} rejected'
+                + (f'; first: {json.dumps(first)[:400]}' if first else ''))
 
 
 def labrun_growth(scratch):
@@ -203,6 +232,9 @@ def main() -> int:
             good, msg = _one(scratch, *args)
             print(('[ok] ' if good else '[MISMATCH] ') + msg)
             ok = ok and good
+        good, msg = task_def(scratch)
+        print(('[ok] ' if good else '[MISMATCH] ') + msg)
+        ok = ok and good
         good, msg = cycle_check(scratch)
         print(('[ok] ' if good else '[MISMATCH] ') + msg)
         ok = ok and good
